@@ -1,3 +1,90 @@
 import Driver.Common
-/-! Model driver for C09 — not built yet. -/
-def main (_args : List String) : IO Unit := pure ()
+import Logrange.Model.Truncate
+import Logrange.Generated.C09
+/-! Model driver for C09 (TRUNCATE). Requests (all numbers decimal):
+
+* `choose <dry 0|1> <max> <min> <before> <jsize> <k> (<id> <size> <maxTs>){k}`
+    — `Service.truncate` on a chunk list → `<n> <removed> <bySize> <byTime> <ids left, comma separated | ->`
+* `run <dry 0|1> <max|none> <min|none> <before|none> <maxdb|none> <np> (<src> <sel 0|1> <users> <k> (<id> <size> <maxTs>){k}){np}`
+    — the whole command (`cmdTruncate` parameter mapping, `Service.Truncate`, `truncateGlobally`) for EVERY visiting
+      order of the partitions → `tie=<0|1> n=<number of distinct outcomes> ; <outcome> ; <outcome> …`, outcomes sorted;
+      an outcome is `R <src>:<before>:<after>:<chunks>:<deleted 0|1>,… D <src>=<id.id.…>,… P <src>:<phase-I chunks>:<phase-II chunks>,…`
+      (R = report lines sorted by src, D = partitions afterwards sorted by src, P = which phase took how many chunks).
+      `tie` = the MAXDBSIZE pass runs and two of its candidates share their latest timestamp (class of finding F31).
+-/
+open Logrange.Truncate Driver
+
+def strict : Bool := Logrange.Generated.C09.timeLoopStrict
+def gMin : Nat := Logrange.Generated.C09.globalMinSrcSize
+def gMax : Nat := Logrange.Generated.C09.globalMaxSrcSize
+
+def natOf (s : String) : Nat := s.toNat?.getD 0
+def intOf (s : String) : Int := s.toInt?.getD 0
+def optNat (s : String) : Option Nat := if s == "none" then none else s.toNat?
+def optI (s : String) : Option Int := if s == "none" then none else s.toInt?
+
+/-- read `k` chunks (3 tokens each) -/
+def readChunks : Nat → List String → List Chunk × List String
+  | 0, ts => ([], ts)
+  | k+1, i :: s :: m :: ts =>
+    let r := readChunks k ts
+    (⟨natOf i, natOf s, intOf m⟩ :: r.1, r.2)
+  | _, _ => ([], [])
+
+def readParts : Nat → List String → List Part
+  | 0, _ => []
+  | n+1, src :: sel :: users :: k :: ts =>
+    let r := readChunks (natOf k) ts
+    ⟨natOf src, sel == "1", natOf users, r.1⟩ :: readParts n r.2
+  | _, _ => []
+
+def joinWith (sep : String) (l : List String) : String := if l.isEmpty then "-" else sep.intercalate l
+
+def insertBy {α} (lt : α → α → Bool) (x : α) : List α → List α
+  | [] => [x]
+  | y :: ys => if lt y x then y :: insertBy lt x ys else x :: y :: ys
+def sortBy {α} (lt : α → α → Bool) (l : List α) : List α := l.foldr (insertBy lt) []
+
+def perms {α} : List α → List (List α)
+  | [] => [[]]
+  | x :: xs => (perms xs).flatMap (fun p => (List.range (p.length + 1)).map (fun i => p.take i ++ x :: p.drop i))
+
+def b01 (b : Bool) : String := if b then "1" else "0"
+
+def showOutcome (p : Params) (order : List Part) : String :=
+  let st1 := phase1 strict p order
+  let out := phase2 strict gMin gMax p st1
+  let reps := sortBy (fun (a b : Info) => a.src < b.src) out.reports
+  let r := joinWith "," (reps.map (fun i => s!"{i.src}:{i.before}:{i.after}:{i.chunksDeleted}:{b01 i.deleted}"))
+  let db := sortBy (fun (a b : Part) => a.src < b.src) out.db
+  let d := joinWith "," (db.map (fun q => s!"{q.src}={joinWith "." (q.chunks.map (fun c => toString c.id))}"))
+  let ph := sortBy (fun (a b : Info) => a.src < b.src) st1.infos
+  let phs := ph.map (fun i =>
+    let fin := (out.reports.find? (fun r => r.src == i.src)).map (·.chunksDeleted) |>.getD i.chunksDeleted
+    s!"{i.src}:{i.chunksDeleted}:{fin - i.chunksDeleted}")
+  s!"R {r} D {d} P {joinWith "," phs}"
+
+def hasTie (p : Params) (order : List Part) : Bool :=
+  let st1 := phase1 strict p order
+  let cands := st1.infos.filter (fun i => 0 < i.after)
+  decide (p.maxDB < totalAfter st1.infos) &&
+    cands.any (fun a => cands.any (fun b => a.src != b.src && a.latestTs == b.latestTs))
+
+def dedup (l : List String) : List String := l.foldr (fun x acc => if acc.contains x then acc else x :: acc) []
+
+def step (u : Unit) (toks : List String) : Unit × String :=
+  match toks with
+  | "choose" :: dry :: mx :: mn :: bef :: jsize :: k :: rest =>
+    let cks := (readChunks (natOf k) rest).1
+    let p : Params := { dryRun := dry == "1", maxSrc := natOf mx, minSrc := natOf mn, oldestTs := intOf bef }
+    let ch := choose strict p cks (natOf jsize)
+    let r := truncate strict p cks (natOf jsize)
+    (u, s!"{r.n} {r.removed} {ch.bySize} {ch.byTime} {joinWith "," (r.chunks.map (fun c => toString c.id))}")
+  | "run" :: dry :: mx :: mn :: bef :: mdb :: np :: rest =>
+    let parts := readParts (natOf np) rest
+    let p := mkParams (dry == "1") (optNat mn) (optNat mx) (optI bef) (optNat mdb)
+    let outs := sortBy (fun (a b : String) => a < b) (dedup ((perms parts).map (showOutcome p)))
+    (u, s!"tie={b01 (hasTie p parts)} n={outs.length} ; {" ; ".intercalate outs}")
+  | _ => (u, "bad-op")
+
+def main (args : List String) : IO Unit := Driver.run step () args
